@@ -50,9 +50,20 @@ TCRead == /\ Ev("cread") /\ e.data_ok = TRUE
                 /\ got' = Append(got, [id |-> net[p].id, size |-> net[p].size])
                 /\ res' = [op |-> "cread", ret |-> "ok", id |-> net[p].id, size |-> net[p].size]
           /\ UNCHANGED <<peerMax, localMax, maxPkt, hasWriter, hasReader, err, nextId, acc, queue, wire, rq>>
+\* degraded runs (the qlog may hide DATAGRAM frames behind a PADDING/PING entry): no wire events; what the server reads
+\* must still be an accepted datagram, later in sending order than everything read before, unchanged
+TCReadQ == /\ Ev("creadq") /\ e.data_ok = TRUE
+           /\ \E p \in DOMAIN queue :
+                /\ queue[p].size = e.size /\ (e.size > 0 => queue[p].id = e.id)
+                /\ \A k \in 1..(p - 1) : ~(queue[k].size = e.size /\ (e.size > 0 => queue[k].id = e.id))
+                /\ queue' = SubSeq(queue, p + 1, Len(queue))
+                /\ wire' = wire \o [k \in 1..p |-> [id |-> queue[k].id, size |-> queue[k].size, withLen |-> FALSE, pad |-> 0, pm |-> peerMax]]
+                /\ got' = Append(got, queue[p])
+                /\ res' = [op |-> "cread", ret |-> "ok", id |-> queue[p].id, size |-> queue[p].size]
+           /\ UNCHANGED <<peerMax, localMax, maxPkt, hasWriter, hasReader, err, nextId, acc, net, rq>>
 TCErr == Ev("cerr") /\ ConnError
-TFinal == /\ Ev("final") /\ e.accepted = Len(acc) /\ e.on_wire = Len(wire) /\ e.delivered = Len(got)
-          /\ res' = [op |-> "final", open |-> ~err]
+TFinal == /\ Ev("final") /\ e.accepted = Len(acc) /\ e.delivered = Len(got) /\ (e.claim => e.on_wire = Len(wire))
+          /\ res' = [op |-> "final", open |-> ~err /\ e.claim]
           /\ UNCHANGED <<peerMax, localMax, maxPkt, hasWriter, hasReader, err, nextId, acc, queue, wire, net, rq, got>>
 
 \* the run did not get as far as an established connection: nothing to validate
@@ -76,7 +87,7 @@ SoftHeadOfLineBlocked == Soft("HeadOfLineBlocked", HeadOfLineBlocked)
 
 TraceInit == l = 1 /\ Init
 TraceNext == TReset \/ TWriter \/ TReader \/ TSend \/ TPack \/ TLose \/ TDeliver \/ TInject \/ TRead \/ TConnErr
-             \/ TCSend \/ TCWire \/ TCRead \/ TCErr \/ TFinal \/ TAbort
+             \/ TCSend \/ TCWire \/ TCRead \/ TCReadQ \/ TCErr \/ TFinal \/ TAbort
 TraceAccepted ==
     LET d == TLCGet("stats").diameter IN
     IF d - 1 = NE THEN TRUE
